@@ -331,7 +331,7 @@ func C16(ctx *core.Ctx) error {
 	jvmEnv := map[string]string{"JAVA_TOOL_OPTIONS": "-XX:ParallelGCThreads=2 -XX:CICompilerCount=2"}
 
 	// random long tuples: a sample of them goes to TLC (frames computed by the specification)
-	rl := c16NewRandomLong(ctx.Seed, ctx.Pick(400, 100000), ctx.Pick(60, 300))
+	rl := c16NewRandomLong(ctx.Seed, ctx.Pick(150, 6000), ctx.Pick(60, 300)) // families (about 17 tuples each), tuples sampled for TLC
 
 	// ---- TLC jobs (started now, consumed below as they finish)
 	hfJob := func(name string, w int, h c16HF, wrapper string) *c16Job {
